@@ -568,15 +568,22 @@ void h_do_grow(void) {
   g_map.resize_lock = 1;                                  /* grow() took it */
   alloc_block_may_fail = 1; alloc_block_calls = 0; blk_retired_count = 0;
   bstate_t st0 = g_B->state;
+  gw_on = 1; gw_published = 0; gw_bad = 0; gw_new_stores = 0; gw_publications = 0;
   vhm_do_grow_real(&g_map);
+  gw_on = 0;
   XV_OBL("vhm.grow.resize_lock", g_map.resize_lock == 0 && alloc_block_calls == 1 && alloc_block_arg == 2 * (XV_MASK + 1));
   if (xv_threw) {
     XV_OBL("vhm.grow.conserves", xv_threw == XV_EXC_std__bad_alloc && g_map.data_block == &g_blk && blk_retired_count == 0);
+    XV_OBL("vhm.grow.publish_order", gw_publications == 0 && gw_new_stores == 0);
     check_unchanged(s);
     XV_CANARY("do_grow.bad_alloc");
     return;
   }
   XV_OBL("vhm.grow.conserves", g_map.data_block == &g_blk2 && blk_retired_count == 1 && blk_retired == &g_blk);
+  /* the new block is published once, by a release store, after the last store into it.  (new_bucket.head = new_extension is a plain
+     assignment to an atomic in the C++ text, i.e. a seq_cst store the lowering keeps as an unmonitored assignment: the final-state
+     obligations below cover its effect, its position before the data_block store is visible in the lowered text) */
+  XV_OBL("vhm.grow.publish_order", gw_publications == 1 && !gw_bad && XV_IS_RELEASE(gw_publish_order) && gw_new_stores >= (unsigned)s.size0 * 3);
   /* the old bucket stays locked for ever (late lockers spin until they reload data_block) and keeps its contents */
   XV_OBL("vhm.grow.conserves", g_B->state == BS_locked(st0) && g_B->head == s.B0.head && look_eq(lookup(g_B, in_gk), s.g));
   /* an arbitrary key: it is in the new block exactly where a lookup will search it, with the value it had, and nowhere else */
